@@ -19,7 +19,8 @@ import Cgm.Model.Assign
    (`Sum<&'a T>`, `Product<&'a T>`) as folds that read through a reference at every step.
 
 All statements hold over any scalar with the bare notation classes (`[Add α]` ...): no ring laws
-are used, so they apply to the twelve primitive types' operations as given.
+are used, so they can be instantiated at any interpretation of `+ - * / %`; the overflow / wrapping / panic behaviour of the twelve
+primitive types is NOT modelled here (no overflow model), so nothing is claimed about it.
 -/
 set_option linter.unusedSectionVars false
 set_option linter.unusedVariables false
@@ -193,8 +194,9 @@ def allTriples : List (BinOp × OTy × OTy) :=
 theorem allTys_complete (t : OTy) : t ∈ allTys := by cases t <;> simp [allTys]
 theorem allOps_complete (op : BinOp) : op ∈ allOps := by cases op <;> simp [allOps]
 
-/-- the table has the 112 operand-type pairs of the impl inventory (`Add` 13, `Sub` 16, `Mul` 34,
-`Div` 26, `Rem` 23: /verif/inventory/ops_impls.txt modulo reference forms and primitive types) ... -/
+/-- the Lean table `opTy` has 112 operand-type pairs (`Add` 13, `Sub` 16, `Mul` 34, `Div` 26, `Rem` 23).  This theorem counts
+the Lean table only: that these are the pairs of the impl inventory (/verif/inventory/ops_impls.txt modulo reference forms and
+primitive types) is the intent of the transcription and is checked by no theorem or tool ... -/
 theorem opTy_count :
     (allTriples.filter fun x => (opTy x.1 x.2.1 x.2.2).isSome).length = 112 ∧
     (allTys.flatMap fun s => allTys.map fun t => (opTy .add s t).isSome).count true = 13 ∧
@@ -251,7 +253,9 @@ theorem evalForm_sound (f : OForm) (op : BinOp) (a b r : OVal α) (h : evalForm 
   split at h
   · exact h
   · cases h
-/-- **the value of `a op b` does not depend on the form it is written in** -/
+/-- **the value of `a op b` does not depend on the form it is written in**, in the model `evalForm`.  For the four operand forms
+(`a op b`, `&a op b`, ...) this is definitional (`evalForm` evaluates all of them by the same `evalOp`, as the Rust macro expands
+the same body); the content is the assignment form, which runs the separately written assignment code (`evalForm_eq`) -/
 theorem evalForm_indep (f g : OForm) (op : BinOp) (a b r r' : OVal α)
     (h : evalForm f op a b = some r) (h' : evalForm g op a b = some r') : r = r' := by
   have := evalForm_sound f op a b r h
@@ -365,7 +369,9 @@ theorem angle_sum_eq_sum {A : Type} [AddCommMonoid A] (l : List A) :
   · intro l' h
     exact foldl_perm _ (fun a b c => by simp only [Angle.add]; rw [add_right_comm]) h _
 
-/-- `Sum<&'a T>`: the by-reference impls compute the by-value `Sum` of the referenced values -/
+/-- `Sum<&'a T>`: the model's by-reference folds `sumRefs` (model definitions transcribed from the by-reference impls, a left
+fold that dereferences at every step) equal the by-value `sumList` of the dereferenced list (`List.foldl_map` on two model
+definitions; not a statement about traced code) -/
 theorem sumRefs_eq [Add α] [OfNat α 0] (it : List ρ) :
     (∀ d : ρ → V1 α, V1.sumRefs d it = V1.sumList (it.map d)) ∧
     (∀ d : ρ → V2 α, V2.sumRefs d it = V2.sumList (it.map d)) ∧
